@@ -227,7 +227,8 @@ def stack_shapes():
     for nk, es in (("tree", ("ffh", "dfc")), ("list", ("tg1", "lf")), ("tree", ("g", "rlf")), ("list", ("rlf", "g")),
                    ("tree", ("os", "g")), ("list", ("on", "ffh")), ("tree", ("bg", "n")), ("list", ("v1", "bg"))):
         out.append(("%s2_%s" % (nk, "_".join(es)), nk, es, "thorough"))
-    quick2 = {("tree", "g", "g"), ("list", "g", "g"), ("tree", "g", "n"), ("list", "n", "g"), ("tree", "lf", "v1")}
+    quick2 = {("tree", "g", "g"), ("list", "g", "g"), ("tree", "g", "n"), ("tree", "n", "g"), ("list", "n", "g"),
+              ("list", "g", "n"), ("tree", "lf", "v1")}
     for nk in NEST[2]:
         for es in itertools.product(("g", "n", "v1", "lf"), repeat=2):
             out.append(("%s2_%s" % (nk, "_".join(es)), nk, es, "quick" if (nk,) + es in quick2 else "thorough"))
